@@ -211,6 +211,9 @@ impl Tzif {
     }
 
     pub fn get(&self, epoch_seconds: &Seconds) -> TemporalResult<TimeZoneOffset> {
+        if !EPOCH_SECONDS_RANGE.contains(&epoch_seconds.0) {
+            return Err(epoch_seconds_out_of_range());
+        }
         let db = self.get_data_block2()?;
 
         let result = db.transition_times.binary_search(epoch_seconds);
@@ -272,6 +275,9 @@ impl Tzif {
     /// be provided. This time does NOT exist due to the +1 jump from
     /// 02:00 -> 03:00 (but of course it does as a nanosecond value).
     pub fn v2_estimate_tz_pair(&self, seconds: &Seconds) -> TemporalResult<LocalTimeRecordResult> {
+        if !EPOCH_SECONDS_RANGE.contains(&seconds.0) {
+            return Err(epoch_seconds_out_of_range());
+        }
         // We need to estimate a tz pair.
         // First search the ambiguous seconds.
         let db = self.get_data_block2()?;
@@ -330,6 +336,15 @@ impl Tzif {
             false => Ok(next_record.into()),
         }
     }
+}
+
+/// The seconds of every instant Temporal can represent, plus a day of local-time offset.
+/// The date arithmetic below is only defined (and free of overflow) inside this range.
+const EPOCH_SECONDS_RANGE: core::ops::RangeInclusive<i64> =
+    -(8_640_000_000_000 + 86_400)..=(8_640_000_000_000 + 86_400);
+
+fn epoch_seconds_out_of_range() -> TemporalError {
+    TemporalError::range().with_message("epoch seconds are outside the valid range.")
 }
 
 #[inline]
